@@ -61,7 +61,8 @@ def build_flux(case, surfs):
         return 'img.mfm', flux.hxcmfm_from_surfaces(surfs, nt, spt, order=ordf, **kw)
     ver = 1 if cont == 'hfe1' else 3
     return 'img.hfe', flux.hfe_from_surfaces(surfs, nt, spt, enc, ver, order=ordf, pad_tracks=case.get('pad', True),
-                                              lut_exact=case.get('lut_exact', False), **kw)
+                                              lut_exact=case.get('lut_exact', False), lut_block=case.get('lut_block', 1),
+                                              first_track_block=case.get('first_track_block', 2), **kw)
 
 
 def w_oneside(case):
@@ -289,6 +290,29 @@ def fam_matrix(tier):
         yield {'w': 'equiv', 'enc': 'FM', 'container': 'hfe1', 'sides': 2, 'ntracks': 80, 'spt': 10}
 
 
+def fam_layout(tier):
+    """file layout the formats leave to the writer: HFE track list in block 1,2,3,6 (header field track_list_offset) with the track data
+    starting 1..3 blocks later; last sector of a track ending exactly at the end of the stored track (no trailing gap), all containers"""
+    short = [['cat'], ['type', '--binary', 'ALL'], ['dump', 'S.SMALL']]
+    for enc in ('FM', 'MFM'):
+        spt = 10 if enc == 'FM' else 18
+        for cont in ('hfe1', 'hfe3'):
+            for lb in (1, 2, 3, 6):
+                for skip in (1, 2, 3):
+                    for sides in (1, 2):
+                        yield {'w': 'equiv', 'enc': enc, 'container': cont, 'sides': sides, 'ntracks': 3, 'spt': spt, 'lut_block': lb,
+                               'first_track_block': lb + skip, 'cmds': short, 'sigx': 'track-list-position',
+                               'note': 'track list in block %d, track data from block %d' % (lb, lb + skip)}
+        for cont in CONTAINERS[enc]:
+            for gap3 in (0, 1, 2, 3):
+                for sides in (1, 2):
+                    for index_mark in (True, False):
+                        yield {'w': 'equiv', 'enc': enc, 'container': cont, 'sides': sides, 'ntracks': 2, 'spt': spt,
+                               'gaps': {'gap3': gap3, 'tail': 0, 'index_mark': index_mark}, 'lut_exact': True, 'pad': cont == 'hfe3' or sides == 2,
+                               'cmds': short, 'sigx': 'no-trailing-gap',
+                               'note': 'last record ends %d byte(s) before the end of the track data' % gap3}
+
+
 def fam_oneside(tier):
     """two-sided flux images with only side 0 / only side 1 formatted (a one-sided disc imaged in a two-headed drive), every container"""
     for enc in ('FM', 'MFM'):
@@ -398,7 +422,7 @@ def fam_opcodes(tier):
 
 
 FAMILIES = [('M-encoding-container-sides-geometry', fam_matrix), ('O-sector-orders', fam_orders),
-            ('G-gaps-sync-padding', fam_gaps), ('L-exact-track-lengths', fam_tracklen), ('V-hfe3-opcodes', fam_opcodes), ('U-one-side-unformatted', fam_oneside)]
+            ('G-gaps-sync-padding', fam_gaps), ('L-exact-track-lengths', fam_tracklen), ('V-hfe3-opcodes', fam_opcodes), ('U-one-side-unformatted', fam_oneside), ('Y-writer-chosen-file-layout', fam_layout)]
 
 
 def main(tier, seed):
